@@ -29,8 +29,8 @@ type deciderTable struct {
 	evaluee *ssa.Function
 }
 
-type ldLabel string    // a label token
-type ldWire struct{}   // the wire operand: field L0 is token L0, field L1 is token L1
+type ldLabel string  // a label token
+type ldWire struct{} // the wire operand: field L0 is token L0, field L1 is token L1
 type ldCell struct {
 	v      any
 	fields map[string]any
